@@ -29,7 +29,8 @@ def check_pure(run, eff, f, roots=None, allow=(), rule='R4a', what='query'):
     else:
         run.ok(rule, f, f.qual, 'MOD(%s) = {} on resolved call edges' % ','.join(roots))
     for p, k in soft:
-        run.undecided(rule, f, '%s %s' % (p, k), 'write exists only through name-resolved (CHA) method calls')
+        # a may-write of the class-hierarchy approximation only (a method of that NAME in some class writes): listed, not failing
+        run.undecided(rule, f, '%s %s' % (p, k), 'write exists only through name-resolved (CHA) method calls', declared=True)
     return not bad
 
 
